@@ -27,7 +27,7 @@ func TestVerifC15(t *testing.T) {
 		Assumptions: []string{"the backing store's own ReadAt/WriteAt are atomic (store mutex; single bytes on the os file)", "file size does not change", "race detector on"},
 		Units: func(tier vfTier, seed uint64) int {
 			if tier == vfThorough {
-				return 800
+				return 8000
 			}
 			return 32
 		},
